@@ -265,6 +265,37 @@ def formats(ctx, shard, nshards):
                     tag += "@tail"
                 V.add(tag, {"fmt": fmt, "k": kind, "in": i, "base": b, "kind": "rt"},
                       expected=i, actual={"text": t, "parsed": bk}, weight=len(fmt) * 1000 + len(toks))
+        # the other way a line is read: the scanner that finds a date inside a line (default and sed
+        # mode); the whole text is the date, so `dconv -S` must print the parsed value and nothing else
+        if it % 3 == 0 and not cons.get("epoch") and len(toks) >= 2:
+            by_b = {}
+            for v, i, t, bk, b in res:
+                by_b.setdefault(b, []).append((i, t))
+            for b, its in by_b.items():
+                try:
+                    sed, _ = run_lines(ctx.build, "dconv", (["-b", "%04d-01-01" % b] if b else []) + ["-S", "-i", fmt, "-f", OUTF[kind]],
+                                       [t for _, t in its], empty_mode=False)
+                except BatchError as e:
+                    V.add("batch:sed", {"fmt": fmt, "kind": "batch", "k": kind}, detail=str(e), actual=e.result.brief(), weight=len(fmt))
+                    continue
+                # what the scanner is known not to cope with goes into classes of its own
+                rest = fmt
+                for tk in toks:
+                    rest = rest.replace(tk, "", 1)
+                if cons.get("roman"):
+                    sc = "scan:roman"
+                elif cons.get("bday"):
+                    sc = "scan:bizda"
+                elif not rest and (kind != "d" or set(notes) & {"named", "one-letter", "ampm", "ordinal", "count"}):
+                    # no literal anywhere between the specifiers, and names or a time among them
+                    sc = "scan:unseparated"
+                else:
+                    sc = "scan:%s:%s" % (kind, "+".join(notes or ["plain"]))
+                for (i, t), so in zip(its, sed):
+                    sub.evaluations += 1
+                    if so != i:
+                        V.add(sc, {"fmt": fmt, "k": kind, "in": i, "text": t, "base": b, "kind": "scan"},
+                              expected=i, actual=so, weight=len(fmt) * 1000 + len(toks))
         # whole text consumed: dtest --isvalid on a few
         for v, i, t, bk, b in res[:2]:
             if "\t" in t and False:
@@ -372,6 +403,11 @@ def replay(ctx, subname, case):
         txt, _ = run_lines(ctx.build, "dconv", ["-f", case["fmt"]], [case["in"]])
         back, _ = run_lines(ctx.build, "dconv", bargs + ["-i", case["fmt"], "-f", OUTF[case["k"]]], txt)
         return None if back[0] == case["in"] else {"fmt": case["fmt"], "in": case["in"], "text": txt[0], "parsed": back[0]}
+    if k == "scan":
+        b = case.get("base")
+        sed, _ = run_lines(ctx.build, "dconv", (["-b", "%04d-01-01" % b] if b else []) + ["-S", "-i", case["fmt"], "-f", OUTF[case["k"]]],
+                           [case["text"]], empty_mode=False)
+        return None if sed[0] == case["in"] else {"fmt": case["fmt"], "text": case["text"], "expected": case["in"], "actual": sed[0]}
     if k == "isvalid":
         b = case.get("base")
         r = run_args(ctx.build, "dtest", (["-b", "%04d-01-01" % b] if b else []) + ["--isvalid", "-i", case["fmt"], "--", case["text"]])
